@@ -26,20 +26,22 @@ sec = f"""
 
 ## 12. Seeded changes and which checks catch them
 
-{len(rows)} property-breaking changes were written in six batches by independent sub-agents that saw only the text of
+{len(rows)} property-breaking changes were written in seven batches by independent sub-agents that saw only the text of
 one property and a scratch worktree (nothing from /verif): batch 1 (ids `CnnA`, `CnnB`, all 20 properties, against the
 tree with fixes F1-F15), batch 2 (`CnnC`, `CnnD` for 12 schedule / negotiation properties, against the tree with F1-F24),
 batch 3 (`CnnC`, `CnnD` for the remaining 8, against F1-F26), batch 4 (`CnnE`, `CnnF` for the 8 schedule properties,
 asked for changes that need a specific, deep history to show), batch 5 (`CnnG`, `CnnH` for the other 12, same
 brief; both against F1-F27) and batch 6 (`CnnI`, `CnnJ` (`K`) for all 20: omissions, the wrong one of two similar things,
-error / rare paths, changes outside the obvious function, interactions of two features).  Each was confirmed in a scratch worktree (patch applies
+error / rare paths, changes outside the obvious function, interactions of two features) and batch 7 (`CnnM`, `CnnN` for all
+20: value-dependent at boundaries, state leaking between instances, order, stale state used by the next exchange, type /
+unit confusion).  Each was confirmed in a scratch worktree (patch applies
 on its own, the 176-test baseline still passes, its demonstration exits 0 without and 1 with the change;
 `tools/confirm_seed2.sh`) and is kept as `seeded/<id>/{{patch.diff, demo.py, notes.md, meta.json}}`.
 `tools/run_seeded.py` applies each to a scratch worktree of /repo's HEAD, points the **quick** tier of its property's
 check (plus related checks) at it through `VERIF_REPO`, and writes the outcome into `meta.json` (so neither /repo nor the
 evidence of the real tree is touched).  On the current tree {caught} of {len(rows)} are caught by a quick tier; silent:
-{', '.join(silent) or 'none'} (see their notes: made unreachable by a later `fix:` commit, i.e. equivalent to the unchanged
-tree now; both were caught before those fixes).
+{', '.join(silent) or 'none'} (see their notes: C02B and C13A were made unreachable by a later `fix:` commit, i.e. are
+equivalent to the unchanged tree now - both were caught before those fixes; C18N does not violate the statement).
 
 | Id | Change | Needs | Quick-tier result |
 |---|---|---|---|
@@ -71,7 +73,17 @@ including the first), model kernel deletes hard-expired SAs itself as Linux does
 every point of an IKE_SA rekey - C15D had become a matter of seed), C16 (`table-lost-live-ike-sa`), C18 (rekeys / new
 CHILD_SAs after the cookie round), C19 (vocabulary stage: every documented name), C20 (directed completed exchanges at
 INFO, strangers).  C08J is only reachable at IKE_SA level (the loop never hands an IKE_SA_INIT request to an existing
-IKE_SA) and is caught there by C08 and by C03.
+IKE_SA) and is caught there by C08 and by C03.  Batch 7 (15 of 40 first missed; 6 of those were already caught by the
+check of a neighbouring property, recorded in the table) - C01 (one-sided policy edits: the two administrators do not write
+mirror-image policies; complete grid of edit pairs), C02 (an earlier honest session between the same two daemon
+instances, whose AUTH payload is replayed), C05 (building a message from valid content must succeed: 256-octet nonce),
+C07 (clear payload in front of SK), C08 (histories of 300 exchanges: Message IDs beyond one octet), C09 (first exchange on
+the successor of a rekeyed IKE_SA x loss), C11 (second CHILD_SA through CREATE_CHILD_SA with PFS, answerer busy; policies
+read from the configuration text), C16 (the table as every `dispatch_message` call leaves it, before the sweep of the
+same loop pass tidies up; rekey-retransmission family), C17 (authentic SK payloads with malformed bodies; cleartext of
+every exchange type to IKE_SAs in every handshake state), C18 (nonce lengths 16..256 and changes confined to the tail),
+C20 (whatever reaches the root handlers while the root logger is at INFO counts, whatever level the record claims).
+C18N is not a violation of C18 as written (see its note) and stays silent on purpose.
 """
 p = ROOT + '/DESIGN.md'
 s = open(p).read()
